@@ -755,10 +755,14 @@ func (b *broker) trySend(sess *wamp.Session, msg wamp.Message) {
 }
 
 func prepareEvent(pub *wamp.Session, msg *wamp.Publish, pubID wamp.ID, sub *subscription, sendTopic, disclose bool, eventDetails wamp.Dict, subscriber *wamp.Session) *wamp.Event { //nolint:lll
-	details := eventDetails
-	if details == nil {
-		details = wamp.Dict{}
-	}
+	// Each event gets its own details dict. The details depend on the
+	// recipient and its subscription (topic only for pattern subscriptions,
+	// publisher identity only for subscribers that announced the feature), so
+	// one dict must not be shared by the events of a publication: whatever is
+	// added for one recipient would reach all others, including events that
+	// are already queued or being written by a transport.
+	details := make(wamp.Dict, len(eventDetails)+4)
+	maps.Copy(details, eventDetails)
 
 	event := &wamp.Event{
 		Publication:  pubID,
